@@ -72,6 +72,38 @@ let eval_line sub k =
     let pcs = split_all path in
     String.concat " " (["OK"; hexl tp; hexl (Model.dir tp); hexl (path @ to_l ".fifo"); hexl (Model.replace_all (to_l "__parent__") (to_l "../") path); string_of_int (List.length pcs)] @ List.map hexl pcs)
   | "sanitize" -> hexl (sanitize (str k))
+  | "combine" | "combinefiles" ->
+    let nk = int k in
+    let cols = List.init nk (fun _ -> let key = str k in let vals = strs k in (key, vals)) in
+    let outs = comb (List.map snd cols) in
+    String.concat " " (List.mapi (fun i (key, _) ->
+      let col = (try List.nth outs i with _ -> []) in
+      String.concat " " ([hexl key; string_of_int (List.length col)] @ List.map hexl col)) cols)
+  | "split" ->
+    let n = int k in
+    let content = List.map (fun a -> nat_of_int (Char.code (of_asc a))) (str k) in
+    let parts = split_bytes (nat_of_int n) content in
+    String.concat " " (string_of_int (List.length parts) :: List.map (fun p -> hex (String.init (List.length p) (fun i -> Char.chr (int_of_nat (List.nth p i))))) parts)
+  | "lines" ->
+    let content = List.map (fun a -> nat_of_int (Char.code (of_asc a))) (str k) in
+    let ls = lines_of content in
+    String.concat " " (string_of_int (List.length ls) :: List.map (fun p -> hex (String.init (List.length p) (fun i -> Char.chr (int_of_nat (List.nth p i))))) ls)
+  | "select" ->
+    let key = str k in
+    let nrows = int k in
+    let rows = List.init nrows (fun _ -> strs k) in
+    let out = selector (fun p -> not (contains key p)) rows in
+    String.concat " " (string_of_int (List.length out) :: List.map (fun r -> String.concat " " (string_of_int (List.length r) :: List.map hexl r)) out)
+  | "concat" ->
+    let cs = List.map (fun c -> List.map (fun a -> nat_of_int (Char.code (of_asc a))) c) (strs k) in
+    let o = concat_out cs in
+    hex (String.init (List.length o) (fun i -> Char.chr (int_of_nat (List.nth o i))))
+  | "report" ->
+    (* preorder tree: id start nchildren children... ; answer: ids in report order *)
+    let rec tree () = let i = int k in let st = int k in let n = int k in
+      let ups = List.init n (fun _ -> tree ()) in Rec (nat_of_int i, nat_of_int st, O, ups) in
+    let r = tree () in
+    String.concat " " (List.map (fun x -> string_of_int (int_of_nat (rid x))) (report r))
   | _ -> failwith ("unknown subcommand " ^ sub)
 
 
